@@ -307,7 +307,7 @@ def run(prog, tier) -> Result:
                                 f"contract: term amount >= 0.1, i.e. magnitude >= -1")
                 return None
             cr.run("R09.2", init, f"__init__ amount {akind}, multiple {ukind}", setup, judge,
-                   inline_rate_ctor=True, flag_kinds=("none-operand", "none-attribute", "bad-unpack"))
+                   inline_rate_ctor=True, flag_kinds=("none-operand", "none-attribute", "bad-unpack", "float-arith"))
 
     def setup_badcur(c):
         c.new_type("M", **FLAVORS["money"])
@@ -315,6 +315,18 @@ def run(prog, tier) -> Result:
         return [me, c.num("x", "int"), c.num("um", "int"), c.unit("ub", "M"), c.num("ta", "dec")], {}
     cr.run("R09.2", init, "__init__ non-currency argument", setup_badcur, lambda o: expect_raise(o, ["TypeError"]),
            inline_rate_ctor=True)
+
+    def setup_badterm(kind):
+        def setup(c):
+            c.new_type("M", **FLAVORS["money"])
+            c.new_type("T", **FLAVORS["ref"])
+            me = ObjV(erci, "rate")
+            bad = {"number": c.num("x", "int"), "None": NONE, "unit of another type": c.unit("ux", "T")}[kind]
+            return [me, c.unit("ua", "M"), c.num("um", "int"), bad, c.num("ta", "dec")], {}
+        return setup
+    for kind in ("number", "None", "unit of another type"):
+        cr.run("R09.2", init, f"__init__ term currency is a {kind}", setup_badterm(kind),
+               lambda o: expect_raise(o, ["TypeError"]), inline_rate_ctor=True)
 
     def setup_strcur(c):
         c.new_type("M", **FLAVORS["money"])
